@@ -103,4 +103,20 @@ def brWithText : Node := { tag := .name "br".toList, text := some "x".toList }
 example : WFTree brWithText = false := by decide
 example : serialize .html brWithText = "<br>x".toList ∧ serialize .xhtml brWithText = "<br />".toList := by decide
 
+/-- the strict reader is strict: it rejects an unclosed element, bad nesting, an unquoted attribute value, an attribute
+    name written twice, a bare `&`, a raw `>`, a `"` inside an attribute value, and the void spelling of the other format
+    (one kernel evaluation each) -/
+example : (readForest .xhtml "<p>x".toList).isNone = true := by decide +kernel
+example : (readForest .xhtml "<p><em>x</p></em>".toList).isNone = true := by decide +kernel
+example : (readForest .xhtml "<a href=x>t</a>".toList).isNone = true := by decide +kernel
+example : (readForest .xhtml "<a href=\"x\" href=\"y\">t</a>".toList).isNone = true := by decide +kernel
+example : (readForest .html "<p a a>t</p>".toList).isNone = true := by decide +kernel
+example : (readForest .xhtml "a & b".toList).isNone = true := by decide +kernel
+example : (readForest .xhtml "a > b".toList).isNone = true := by decide +kernel
+example : (readForest .xhtml "<a title=\"a\"b\">t</a>".toList).isNone = true := by decide +kernel
+example : (readForest .xhtml "<br>".toList).isNone = true := by decide +kernel
+example : (readForest .html "<br />".toList).isNone = true := by decide +kernel
+example : (readForest .html "<p a b=\"c &amp; d\">t<br>u</p>".toList).isSome = true := by decide +kernel
+example : (readForest .xhtml "<p a=\"a\" b=\"c &amp; d\">t<br />u</p>".toList).isSome = true := by decide +kernel
+
 end MdVerif.Ser
